@@ -134,6 +134,16 @@ NOTES = {
     "C09_q": "first detected at proof level only (service_is_plain_clientservice); since round 8 the long-outage probe on the REAL "
              "ClientService (3 000 / 20 000 refused attempts) gives the concrete history.",
     "C04_a": "transit replay acceptance: caught by C06 (the channel property C04 builds on).",
+    "C04_x": "first detected at proof level only (the C04 world reported losses without a reason); caught with a replay since losses "
+             "are reported as Twisted reports them (Failure(ConnectionDone) / Failure(ConnectionLost) / none, per case).",
+    "C12_x": "first detected at proof level only; caught with a replay since frames without ciphertext (00 00 00 00) are fed in the "
+             "place of the KCM / of a later record (mutations emptykcm, emptyframe).",
+    "C01_y": "first detected at proof level only; caught with a replay since applications that raise from a delegate method / status "
+             "listener during key establishment are part of C01's cases (kind appfault).",
+    "C09_x": "first detected at proof level only (the closing-window corpus disagreed with the model, but with no peer nothing the C09 "
+             "oracle judged went wrong); caught with a replay since the oracle clause resume-duplicate.",
+    "C18_x": "first detected at proof level only; caught with a replay since every message the peer sent counts as one event "
+             "(event-twice:message) in the two-client runs.  The same pair of edits was found independently by the authors of C02_x and C03_x.",
 }
 
 if __name__ == "__main__":
